@@ -50,6 +50,8 @@ MonInit ==
     slow |-> {},         \* clients that stopped reading at some point: "by the end of the iteration" means nothing for them
     slowenv |-> FALSE,   \* a scenario with a real (wall-clock) request timeout ran on a machine too slow for its timing to mean anything
     topoSeen |-> FALSE,  \* the scenario changes the cluster's description (the slot table is then not the static one)
+    await |-> {},        \* fragments whose redirect to a node the proxy knows has been read by the proxy and that have not arrived there yet
+    npaused |-> {},      \* nodes that are not reading at the moment
     envbad |-> FALSE,    \* the machine, not the proxy, disturbed the scenario (a connect timed out, bytes took seconds to arrive): its outcome says nothing about segmentation
     role |-> "", base |-> [nlog |-> <<>>, got |-> <<>>, cst |-> <<>>], baseok |-> TRUE ]   \* C08: outcome of the unsegmented twin
 
@@ -190,6 +192,9 @@ Resolved(m, f, final) ==
   \/ f \in m.tmo
   \/ f \in m.noticed
   \/ final /\ (f \in m.lost \/ f \in m.expired \/ f \notin m.recvd)
+  \* the proxy has read a redirect to a node it knows, everything is quiet, and the request has not arrived at that
+  \* node (which is reading): it has not been re-sent and never will be
+  \/ final /\ f \in m.await /\ At(m.redir, f, <<>>) # <<>> /\ m.redir[f][Len(m.redir[f])].to \notin m.npaused
 
 ReqResolved(m, c, i, final) ==
   LET r == Sent(m, c)[i] IN
@@ -198,9 +203,14 @@ ReqResolved(m, c, i, final) ==
      \/ HasUnowned(r)
      \/ \A f \in Frags(m, c, i) : Resolved(m, f, final)
 
+LastRedir(m, f) == LET s == At(m.redir, f, <<>>) IN IF s = <<>> THEN [kind |-> "none", to |-> ""] ELSE s[Len(s)]
+\* the fragment's latest answer is a redirect to a node the proxy has no pool for: nothing more will come for it
+RedirToUnknown(m, f) == LastRedir(m, f).kind # "none" /\ LastRedir(m, f).to \notin NodeNames
+
 WaitProp(m, c, i) ==
   LET fs == Frags(m, c, i) IN
   IF Sent(m, c)[i].k = "bad" THEN "C12"      \* invalid input neither answered with an error nor the connection closed
+  ELSE IF \E f \in fs : RedirToUnknown(m, f) THEN "C15"
   ELSE IF \E f \in fs : f \notin m.rd /\ f \notin m.tmo /\ f \notin m.expired THEN "C15"
   ELSE IF \E f \in fs : f \notin m.rd THEN "C16"
   ELSE "C09"
@@ -220,8 +230,6 @@ WaitViol(m, final) ==
 
 -----------------------------------------------------------------------------
 \* node side: per-node order (C10), ASKING before a re-sent command (C13)
-
-LastRedir(m, f) == LET s == At(m.redir, f, <<>>) IN IF s = <<>> THEN [kind |-> "none", to |-> ""] ELSE s[Len(s)]
 
 RecvViol(m, e, f) ==
   LET log    == At(m.nlog, e.n, <<>>)
@@ -298,6 +306,7 @@ MonApply(m, e) ==
                                  [conn |-> e.conn, k |-> e.k, c |-> e.c, i |-> e.i, s |-> f[3], resend |-> f \in m.recvd])),
                    !.pend = Put(@, e.conn, Append(At(m.pend, e.conn, <<>>), f)),
                    !.recvd = @ \cup {f},
+                   !.await = @ \ {f},
                    !.viol = @ \cup RecvViol(m, e, f)]
     [] e.ev = "answer" /\ e.fid # "" ->
          LET f == <<e.c, e.i, e.toks[1].s>>
@@ -347,13 +356,16 @@ MonApply(m, e) ==
     [] e.ev = "iter" ->
          LET conns == {e.seen[x].n : x \in {y \in DOMAIN e.seen : e.seen[y].k = "s"}}
              clis  == {e.seen[x].n : x \in {y \in DOMAIN e.seen : e.seen[y].k = "c"}}
-             newrd == UNION {At(m.unread, cn, {}) : cn \in conns} \ m.big
+             \* (a redirect to a node the proxy does not know is the last it hears of the fragment)
+             newrd == (UNION {At(m.unread, cn, {}) : cn \in conns} \ m.big)
+                      \cup {f \in UNION {At(m.unreadRedir, cn, {}) : cn \in conns} : RedirToUnknown(m, f)}
              eof   == conns \ m.dirty      \* one read per event: pending bytes first, end-of-file next time
              newnt == UNION {At(m.lostp, cn, {}) : cn \in eof}
              \* a redirect that is read before the iteration's timeout scan takes the fragment out of the timeout tree;
              \* re-sent, it gets a new deadline: an expiry of the old one that no scan has seen is void
              rearmed == UNION {At(m.unreadRedir, cn, {}) : cn \in conns} \ m.tmo
              m1 == [m EXCEPT !.rd = @ \cup newrd,
+                             !.await = @ \cup {f \in UNION {At(m.unreadRedir, cn, {}) : cn \in conns} : ~RedirToUnknown(m, f)},
                              !.noticed = @ \cup newnt,
                              !.expired = @ \ rearmed,
                              !.tmo = IF e.seen # <<>> THEN @ \cup (m.expired \ rearmed) ELSE @,
@@ -365,7 +377,8 @@ MonApply(m, e) ==
                                           IF c \in clis THEN Len(Sent(m, c)) ELSE m.nread[c]]]
          IN AddViol(m1, WaitViol(m1, FALSE))
     [] e.ev = "quiesce" ->
-         LET m1 == [m EXCEPT !.rd = @ \cup UNION {m.unread[cn] : cn \in DOMAIN m.unread},
+         LET m1 == [m EXCEPT !.rd = @ \cup UNION {m.unread[cn] : cn \in DOMAIN m.unread}
+                                       \cup {f \in UNION {m.unreadRedir[cn] : cn \in DOMAIN m.unreadRedir} : RedirToUnknown(m, f)},
                              !.nread = [c \in DOMAIN m.sent |-> Len(m.sent[c])]]
              missing == UNION { { <<"C06", c, i, "fragment-missing">> :
                                     i \in {x \in DOMAIN Got(m1, c) : x <= Len(Sent(m1, c)) /\ ~IsErr(Got(m1, c)[x])
@@ -375,6 +388,8 @@ MonApply(m, e) ==
          IN AddViol(m1, WaitViol(m1, TRUE) \cup missing)
     [] e.ev \in {"topo", "refreshed"} -> [m EXCEPT !.topoSeen = TRUE]
     [] e.ev = "pause" -> [m EXCEPT !.slow = @ \cup {e.c}]
+    [] e.ev = "npause" -> [m EXCEPT !.npaused = @ \cup {e.n}]
+    [] e.ev = "nresume" -> [m EXCEPT !.npaused = @ \ {e.n}]
     \* a connect to a node failed (the node is down, or the machine so overloaded that the connect timed out): from here
     \* on an error reply may be the environment's doing
     [] e.ev = "envfault" -> [m EXCEPT !.connLost = TRUE, !.envbad = TRUE]
